@@ -270,7 +270,11 @@ class LockStep:
                 if not torch.equal(b64, b64.t()):
                     return ('factor-asymmetric', f'step {step_index}: factor {which} of layer {n} is not exactly symmetric')
                 lmin = torch.linalg.eigvalsh(b64).min().item()
-                if lmin < -64 * self.eps_factor * max(b64.norm().item(), 1e-30) * b64.shape[0]:
+                # relative bound, plus the absolute resolution of the factor's dtype: below its smallest normal number (6.1e-5 for float16)
+                # entries are multiples of one subnormal step (6e-8), so the stored matrix of a tiny true factor can be indefinite by
+                # about one step per row however it is computed
+                fi = torch.finfo(b.dtype)
+                if lmin < -(64 * self.eps_factor * max(b64.norm().item(), 1e-30) + fi.smallest_normal * fi.eps) * b64.shape[0]:
                     return ('factor-not-psd', f'step {step_index}: factor {which} of layer {n} has eigenvalue {lmin:.3e}')
                 if want == torch.float16:
                     continue
